@@ -124,6 +124,65 @@ func TestVerifC03(t *testing.T) {
 		}
 	}
 
+	// (a'') MANY valid tuples with a tiny t = (r+s) mod n and a random s: the key's half of the double-scalar
+	// schedule starts only in the last rows, where the base half's windows of s (any of 64 values each) are
+	// already being consumed - hundreds of samples so that every window pattern of s meets an empty accumulator
+	for i := 0; i < hk.N(900, 6000); i++ {
+		k := kps[rng.Intn(len(kps))]
+		sI := randScalar(rng)
+		tt := bi(int64(1 + rng.Intn(1<<uint([]int{4, 8, 13, 16, 18}[i%5]))))
+		e, r, inf := tupleFor(k.P, sI, tt)
+		if inf || r.Sign() == 0 {
+			continue
+		}
+		add(fmt.Sprintf("valid:tiny-t<2^%d", []int{4, 8, 13, 16, 18}[i%5]), ref.B32(k.P.X), ref.B32(k.P.Y), ref.B32(e), ref.B32(r), ref.B32(sI))
+	}
+	// (a') ARITHMETIC mutations of valid tuples by the constants of the domain: each of e, r, s shifted by
+	// +-(p-n), +-n, +-p, +-(2^256-n), +-(2^256-p), +-1 in 256-bit arithmetic and modulo n; r and s swapped; one value
+	// copied into another. A verifier that compares the wrong representative, reduces by the wrong modulus
+	// or accepts a second candidate accepts one of these (bit flips are far from all of them).
+	{
+		pmn := new(big.Int).Sub(ref.SM2P, nI)
+		deltas := []*big.Int{pmn, nI, ref.SM2P, new(big.Int).Sub(b256, nI), new(big.Int).Sub(b256, ref.SM2P), bi(1), new(big.Int).Lsh(pmn, 1)}
+		dnames := []string{"p-n", "n", "p", "2^256-n", "2^256-p", "1", "2(p-n)"}
+		for i := 0; i < hk.N(12, 100); i++ {
+			k := kps[rng.Intn(len(kps))]
+			sI, tt := randScalar(rng), randScalar(rng)
+			e, r, inf := tupleFor(k.P, sI, tt)
+			if inf || r.Sign() == 0 {
+				continue
+			}
+			px, py := ref.B32(k.P.X), ref.B32(k.P.Y)
+			vals := []*big.Int{e, r, sI}
+			vn := []string{"e", "r", "s"}
+			for a := 0; a < 3; a++ {
+				for di, dl := range deltas {
+					for _, sign := range []int64{1, -1} {
+						for _, modn := range []bool{false, true} {
+							v := new(big.Int).Add(vals[a], new(big.Int).Mul(dl, bi(sign)))
+							if modn {
+								v = ref.ModN(v)
+							} else {
+								v.Mod(v, b256)
+							}
+							if v.Cmp(vals[a]) == 0 {
+								continue
+							}
+							m := [][]byte{ref.B32(e), ref.B32(r), ref.B32(sI)}
+							m[a] = ref.B32(v)
+							add(fmt.Sprintf("shift:%s%+d*(%s)", vn[a], sign, dnames[di]), px, py, m[0], m[1], m[2])
+						}
+					}
+				}
+			}
+			add("swap:r<->s", px, py, ref.B32(e), ref.B32(sI), ref.B32(r))
+			add("copy:r=e", px, py, ref.B32(e), ref.B32(e), ref.B32(sI))
+			add("copy:e=r", px, py, ref.B32(r), ref.B32(r), ref.B32(sI))
+			add("copy:s=r", px, py, ref.B32(e), ref.B32(r), ref.B32(r))
+			add("copy:key=(r,s)", ref.B32(r), ref.B32(sI), ref.B32(e), ref.B32(r), ref.B32(sI))
+		}
+	}
+
 	// (b) solved near-misses: equation satisfied, exactly one side condition broken
 	small := func() *big.Int { // < 2^224 so that v+n still fits 32 bytes
 		return new(big.Int).SetBytes(rng.Bytes(27))
